@@ -769,3 +769,36 @@ package appencryption
 //@ wire (KeyMeta) [C18:key-meta-json-shape] ID:string:"KeyId" Created:int64:"Created"
 //@ wire (DataRowRecord) [C18:data-row-record-json-shape] Key:*EnvelopeKeyRecord:"Key" Data:[]byte:"Data"
 //@ wire (EnvelopeKeyRecord) [C18:envelope-key-record-json-shape] Revoked:bool:"Revoked,omitempty" ID:string:"-" Created:int64:"Created" EncryptedKey:[]byte:"Key" ParentKeyMeta:*KeyMeta:"ParentKeyMeta,omitempty"
+
+// ================= C01: what contracts decide about the round trip =================
+// Decryption retraces encryption key for key: the record is opened with exactly the intermediate key it names (id and
+// creation stamp), that key's row is opened with exactly the system key the row names, the system key by the KMS; the
+// bytes handed to each AEAD / KMS call are the stored ciphertexts themselves; neither direction writes to the caller's
+// buffers. (Equality of the decrypted bytes with the original payload then rests on AES-GCM and the KMS being
+// inverses - assumed, see DESIGN.md 0.7 - on rows never changing, C13, and on the rows being there, C02.)
+
+//@ func (*envelopeEncryption).EncryptPayload
+//@   facet C01
+//@   ensures [C01:payload-untouched] forall i int :: 0 <= i && i < len(data) ==> data[i] == old(data[i])
+
+//@ func (*envelopeEncryption).DecryptDataRowRecord
+//@   facet C01
+//@   ensures [C01:record-untouched] drr.Key != nil ==> drr.Key.Created == old(drr.Key.Created) && drr.Key.EncryptedKey == old(drr.Key.EncryptedKey) && drr.Key.ParentKeyMeta == old(drr.Key.ParentKeyMeta) && (forall i int :: 0 <= i && i < len(drr.Data) ==> drr.Data[i] == old(drr.Data[i])) && (forall i int :: 0 <= i && i < len(drr.Key.EncryptedKey) ==> drr.Key.EncryptedKey[i] == old(drr.Key.EncryptedKey[i]))
+//@   ensures [C01:opened-with-exactly-the-intermediate-key-the-record-names] err == nil ==> ncalls(GetOrLoad) == 1 && arg(GetOrLoad, 1, id).ID == old(drr.Key.ParentKeyMeta.ID) && arg(GetOrLoad, 1, id).Created == old(drr.Key.ParentKeyMeta.Created)
+//@   ensures [C01:row-opened-under-that-intermediate-key] err == nil ==> ncalls(decryptRow$1) == 1 && keyof(arr(arg(decryptRow$1, 1, bytes))) == ret(GetOrLoad, 1, 0).CryptoKey.secret
+
+//@ func (*envelopeEncryption).loadIntermediateKey
+//@   facet C01
+//@   ensures [C01:reads-exactly-the-row-the-record-names] ncalls(Load) == 1 && arg(Load, 1, keyID) == meta.ID && arg(Load, 1, created) == meta.Created
+
+//@ func (*envelopeEncryption).intermediateKeyFromEKR
+//@   facet C01
+//@   ensures [C01:row-opened-with-the-system-key-it-names] err == nil && ekr.ParentKeyMeta != nil ==> ncalls(Decrypt) == 1 && arg(Decrypt, 1, data) == ekr.EncryptedKey && result.created == ekr.Created
+
+//@ func (*envelopeEncryption).systemKeyFromEKR
+//@   facet C01
+//@   ensures [C01:system-key-row-opened-by-the-kms] ncalls(DecryptKey) == 1 && arg(DecryptKey, 1, key) == ekr.EncryptedKey && (err == nil ==> result.created == ekr.Created)
+
+//@ func decryptRow$1
+//@   facet C01
+//@   ensures [C01:data-key-unwrapped-then-payload-opened-with-it] ncalls(Decrypt) <= 2 && arg(Decrypt, 1, data) == drr.Key.EncryptedKey && arg(Decrypt, 1, key) == bytes && (retis(Decrypt, 1, 1, nil) ==> arg(Decrypt, 2, data) == drr.Data && arg(Decrypt, 2, key) == ret(Decrypt, 1, 0) && result == ret(Decrypt, 2, 0))
